@@ -5,7 +5,7 @@ proforma_parser.py:2456-2548 and 1978-1995)
 
 `plus : Plus` generalises `include_plus` (`constPlus b` is the Python behaviour).
 Python truthiness is kept: `has_x()` is `is not None`; `if annotation.x:` is "not None and not empty"
-(`charge`: not None and not 0).
+(`charge`: `is not None` since fix 0046c62).
 -/
 namespace Pept
 
@@ -60,7 +60,7 @@ def serializeEnd (plus : Plus) (a : Annotation) : List Char :=
    | some l => '-' :: serializeMods '[' ']' plus l) ++
   (match a.charge with
    | none => []
-   | some ch => if ch = 0 then [] else '/' :: intText ch) ++
+   | some ch => '/' :: intText ch) ++
   optMods '[' ']' plus a.adducts
 
 /-- `ProFormaAnnotation.serialize` -/
